@@ -23,7 +23,7 @@ func init() {
 	register(&PropertyDef{
 		ID:          "C10",
 		Title:       "A crash at any write leaves the secret store consistent and usable",
-		Explanation: "Decides write-order and persistence constraints from the SSA of pkg/secretstore, with datastore/keystore effects labelled by the namespace constant that reaches the key argument: (D1) on the open path the key is stored under the message CID before the precomputed key is deleted, and the next precomputed key is written before the chain key is advanced, in every function where two such writes are distinct sites; (D2) every success return of SealEnvelope is dominated by an accepted Put of the chain key (the only tolerated early return is the monotone counter guard), and the precomputed key is written before the chain key; (D3) registration writes/commits the precomputed window before the chain key; (D4) get-or-generate named keys (the lookup being keystore.Get or a read-only module helper around it): the generated key is returned only after keystore.Put of that same value succeeded under the looked-up name, and the lookup precedes the generation; (D5) errors of the mutating operations on these namespaces are tested and reject; (D7, same analysis as C09.D7, for the keystore) a named key is generated only when the keystore lookup reported exactly keystore.ErrNoSuchKey (tested on the lookup's error directly, or inside a read-only module helper that hands the result on as a (found=false, err=nil) outcome: then the creator must have tested the helper's error nil and found false, and every such return of the helper must be on the sentinel side), and every module keystore implementation returns that sentinel only for the datastore's not-found outcome (or after a successful read): a read fault never makes the device mint new account/device keys over the stored ones; (D8, who may wrap) every constructor of a datastore (or keystore) value called on the construction path of the secret store - the functions reachable from the exported constructors, plus the argument expressions of their module callers - is one of the known write-through ones (keytransform.Wrap, namespace.Wrap, sync.MutexWrap, the NewMapDatastore leaf); module types on that path that are datastores/keystores themselves take Put/Delete from the embedded datastore interface or perform the write on the wrapped store before returning success; anything else (autobatch.NewAutoBatching, delayed, a home-made buffer) is reported, so keys are never handed out while they exist only in a write buffer; (D9) every success return that follows a successful Batch() passes a Commit that succeeded. Each constraint covers every crash point between the two writes. Steps held in a local table of closures run by a forward range loop count as the sequence of the table's elements (element k before element k+1); a table run in any other way (backwards, by computed index) counts as unordered. Not decided: atomicity of datastore batches, partial non-batched window writes, exhaustive crash-point x workload exploration.",
+		Explanation: "Decides write-order and persistence constraints from the SSA of pkg/secretstore, with datastore/keystore effects labelled by the namespace constant that reaches the key argument: (D1) on the open path the key is stored under the message CID before the precomputed key is deleted, and the next precomputed key is written before the chain key is advanced, in every function where two such writes are distinct sites; (D2) every success return of SealEnvelope is dominated by an accepted Put of the chain key (the only tolerated early return is the monotone counter guard), and the precomputed key is written before the chain key; (D3) registration writes/commits the precomputed window before the chain key; (D4) get-or-generate named keys (the lookup being keystore.Get or a read-only module helper around it): the generated key is returned only after keystore.Put of that same value succeeded under the looked-up name, and the lookup precedes the generation; (D5) errors of the mutating operations on these namespaces are tested and reject; (D7, same analysis as C09.D7, for the keystore) a named key is generated only when the keystore lookup reported exactly keystore.ErrNoSuchKey (tested on the lookup's error directly, or inside a read-only module helper that hands the result on as a (found=false, err=nil) outcome: then the creator must have tested the helper's error nil and found false, and every such return of the helper must be on the sentinel side), and every module keystore implementation returns that sentinel only for the datastore's not-found outcome (or after a successful read): a read fault never makes the device mint new account/device keys over the stored ones; (D8, who may wrap) every constructor of a datastore (or keystore) value called on the construction path of the secret store - the functions reachable from the exported constructors, plus the argument expressions of their module callers - is one of the known write-through ones (keytransform.Wrap, namespace.Wrap, sync.MutexWrap, the NewMapDatastore leaf); module types on that path that are datastores/keystores themselves take Put/Delete from the embedded datastore interface or perform the write on the wrapped store before returning success; anything else (autobatch.NewAutoBatching, delayed, a home-made buffer) is reported, so keys are never handed out while they exist only in a write buffer; (D9) every success return that follows a successful Batch() passes a Commit that succeeded. Each constraint covers every crash point between the two writes. Steps held in a local table of closures run by a forward loop over the whole table (for range, or for i := 0; i < len(t); i++) count as the sequence of the table's elements (element k before element k+1); a table run from the last index down to 0 counts as the reversed sequence; any other start, stride or bound counts as unordered. Not decided: atomicity of datastore batches, partial non-batched window writes, exhaustive crash-point x workload exploration.",
 		Trusted:     []string{"go/packages+go/ssa (x/tools v0.29.0)", "go-datastore Put/Delete/Commit are durable when they return nil", "ipfs keystore Put/Get semantics", "go-datastore keytransform/namespace/sync wrappers and MapDatastore perform each write before returning (read from their source, v0.9.1)"},
 		Assumptions: []string{"one secret store instance per datastore; effects identified by the namespace constants of pkg/secretstore"},
 		Floors:      map[string]int{"D1": 2, "D2": 2, "D3": 1, "D4": 2, "D5": 6, "D6": 6, "D7": 2, "D8": 5, "D9": 1},
@@ -244,7 +244,10 @@ func c10VirtualSites(w *World, fn *ssa.Function) []c10VSite {
 func c10After(x, y c10VSite) bool {
 	if x.Instr == y.Instr && x.Table != nil {
 		if x.Table.Ordered {
-			return y.Seq > x.Seq // a forward range over the literal: each element once, in order
+			return y.Seq > x.Seq // a forward loop over the literal: each element once, in order
+		}
+		if x.Table.Reversed {
+			return y.Seq < x.Seq // last to first
 		}
 		return y.Seq != x.Seq
 	}
